@@ -244,7 +244,7 @@ NEGS = (("Neg_PhaseText_parse.cfg", "ParseAgrees"), ("Neg_PhaseText_format.cfg",
 
 
 def model_checking(thorough):
-    w = 16 if thorough else 6
+    w = 8 if thorough else 6
     out = [("MC_PhaseText_" + ("full" if thorough else "quick"),
             tlc.run("MC_PhaseText", "MC_PhaseText_full.cfg" if thorough else "MC_PhaseText_quick.cfg", workers=w,
                     timeout=3000), True, None)]
@@ -271,13 +271,12 @@ def run(chk):
     rnd = random.Random(chk.seed)
     thorough = chk.tier == "thorough"
     with cf.ThreadPoolExecutor(max_workers=1) as ex:
-        mc = ex.submit(model_checking, thorough) if not thorough else None
-        if thorough:
-            file_mc(chk, model_checking(True))
+        # 1. model checking of the specification (beside the trace validation)
+        mc = ex.submit(model_checking, thorough)
+        # 2. trace validation of the real class
         rcs = recipes(rnd, 16 if thorough else 1)
-        events, rejected = pd.validate(chk, rcs, "C15", procs=None if thorough else 8)
-        if mc is not None:
-            file_mc(chk, mc.result())
+        events, rejected = pd.validate(chk, rcs, "C15", procs=8)
+        file_mc(chk, mc.result())
     seen = set()
     for ev in events:
         if ev["ev"] not in seen:
